@@ -249,7 +249,9 @@ public:
   using T_IntType = int32_t;
   using T_PointerType = SIM_PTR_T;
   using T_ShortType = int16_t;
+#ifndef SIM_NO_GRANT_DENY
   using can_grant_deny_access = void;
+#endif
   using needs_internal_lookup_symbol = void;
 
   using Config = sim::SimConfig;
